@@ -63,6 +63,8 @@ def correspond(cases, stats):
         stats["corr_cases"] += 1
         if np.isfinite(gap):
             stats["worst_gap"] = max(stats["worst_gap"], gap)
+            kk = "worst_gap_%s" % c["precision"]
+            stats["branches"][kk] = max(stats["branches"].get(kk, 0.0), gap)
         for k, v in c.get("_kinds", {}).items():
             stats["branches"]["%s=%s" % (k, v)] = stats["branches"].get("%s=%s" % (k, v), 0) + 1
         for k in ("footprint", "analytic", "precision"):
